@@ -50,9 +50,17 @@ func genCertsPlan(r *rand.Rand) *ProxyPlan {
 		if r.IntN(2) == 0 {
 			bh = "burst-" + itoa(r.IntN(1000)) + ".example:443"
 		}
+		// first tunnels to one new host, or to several different new hosts, opening at once
+		bhs := []string{bh}
+		if r.IntN(2) == 0 {
+			bhs = append(bhs, "burst-"+itoa(r.IntN(1000))+"-b.example:443")
+			if r.IntN(2) == 0 {
+				bhs = append(bhs, []string{"10.9.8.7:443", "[2001:db8::2]:8443", "192.0.2.9:1"}[r.IntN(3)])
+			}
+		}
 		n := 2 + r.IntN(7)
 		for i := 0; i < n; i++ {
-			p.Clients = append(p.Clients, []PReq{{Res: 0, Target: "/b", HostHdr: bh, AtMs: burstAt}})
+			p.Clients = append(p.Clients, []PReq{{Res: 0, Target: "/b", HostHdr: bhs[i%len(bhs)], AtMs: burstAt}})
 		}
 	}
 	return p
